@@ -10,22 +10,25 @@ import vf
 import chaindb as cd
 
 META = {
-    "text": "Theorems (Coq, no axioms): after every history of arrivals the main chain is a parent-linked path from genesis on which every "
-            "block executes on its predecessor's root to its own header root and the node's state root is the tip's root "
-            "(state_is_fold_of_branch; an invalid block is never on the main chain); a completed swapChain installs exactly the gathered "
-            "branch (tip, Latest, marker removed) - within add_block_inv (C05) the whole reorganisation is proved to re-establish the "
-            "chain-DB invariant for any depth.  Checked on the real code on every run, independently of the model: final best/state/"
-            "balances equal to a reference node that only saw the winning branch; best height >= every fully stored, fully valid branch "
-            "forking at or above the LIB (ties keep the incumbent, equal/shorter/invalid/below-LIB branches never displace); MemPoolPut "
-            "messages = txs(old branch) minus txs(new branch).  Also proved in Coq (Fork.v, Trace.v): gather finds exactly an available branch and the "
-            "reorganisation towards it succeeds (best_is_longest_available in step form, at reorg level and for an in-order arrival), "
-            "no_displace_equal_or_shorter, below_lib_never_displaces, returned_txs (MemPoolPut events = confirmed before and not after); "
-            "best_is_longest_available as a global invariant is refuted in Coq with the witness of the known finding: "
-            "it is false of the code for an orphan chain with an invalid tail; under the hypothesis excluding exactly that (an arrival that pulls parked "
-            "orphans in does not end in an error) it is proved as an INVARIANT over all arrival histories from genesis "
-            "(C07_best_is_longest_available_invariant).  The check also restarts the node after every arrival of its scenarios (same best, Inv).",
-    "note": "Trusted: Coq kernel/vm_compute; engine, reference node and Python predicates; LIB supplied by a consensus stub as a monotone "
-            "stream; apply/spent abstraction of execution.",
+    "text": "11 Coq theorems, no axioms. FULL: after every history the main chain is a parent-linked path from genesis on which every block "
+            "executes on its predecessor's root and the node's state is the tip's (an invalid block is never on it); swapChain installs "
+            "exactly the gathered branch; gather finds exactly an available branch and the reorganisation towards a fully stored, valid, "
+            "longer branch forking at or above the LIB succeeds (best = its tip, state = its state, Inv); equal/shorter branches and branches "
+            "forking below the LIB never displace; MemPoolPut = txs(old) minus txs(new); winner_followed: after the switch the in-memory "
+            "parameters are the winner's and its next valid block is accepted. PARTIAL: best_is_longest_available as an invariant over all "
+            "histories under the hypothesis that an arrival pulling parked orphans in does not end in an error. REFUTED without it = open "
+            "finding C07:orphan-chain-invalid-tail-blocks-reorg (reorganize() tries only the last block of an orphan run). Tie to /repo on "
+            "every run: engine chaindb on branch geometries (incl. a DAO vote on one branch) and random trees: model correspondence by "
+            "vm_compute; reference node fed only the winner (best, state, dump, balances); Python recomputation of the longest available "
+            "branch, no-displace, below-LIB, returned txs; P11/P12; restart after every arrival and reorganisations cut at every write unit + "
+            "recovery; a real MemPool behind the recorded MemPoolDel/MemPoolPut trace (Q1-Q3).",
+    "note": "Trusted: Coq kernel + vm_compute (no axioms); engine, reference node, pool engine (package mempool, replays the recorded trace "
+            "into a real MemPool over a real ChainStateDB with synthetic blocks of the same senders/nonces) and the Python predicates in "
+            "checks/C07.py and lib/chaindb.py; consensus stub supplying a monotone LIB stream (C08). Modelled, not verified: apply/spent "
+            "abstraction of execution; system parameters as 'those of root pmem'. Hypotheses: collision-free block ids (F8 excluded); LIB "
+            "monotone. Why the open finding is not repaired: trying every connected block of an orphan run (or re-running needReorg on a "
+            "failed tail) changes fork-choice behaviour and was left to the maintainers; the node recovers as soon as a further block of the "
+            "branch arrives.",
     "technique": "Coq invariant proof + vm_compute correspondence + differential reference node on real chain.ChainService",
 }
 
@@ -153,7 +156,7 @@ def run(ctx):
     ctx.cov["trusted_base"] = ["Coq 8.16.1 kernel + vm_compute", "Go toolchain + overlay", "engine harness/engines/chaindb, reference node, lib/chaindb.py predicates",
                                "consensus stub with scripted LIB", "apply/spent abstraction of block execution"]
     ctx.assumptions = ["LIB stream is monotone (C08)", "block identifiers are collision-free digests (F8 excluded)",
-                       "no arriving block carries BlockNo 0 (C05 known finding)"]
+                       "an arrival that pulls parked orphans in does not end in an error (only for best_is_longest_available_invariant)"]
     eng = cd.build_engine(ctx)
     f7_fixed = cd.source_has_f7_fix(ctx.repo)
     corpus = corpus_cases()
